@@ -15,10 +15,11 @@ package pogreb
 //@   ensures kept: forall i int :: 0 <= i && i < 32767 && old(dl.segments[i]) != nil ==> dl.segments[i] == old(dl.segments[i])
 //@   ensures new: forall i int :: 0 <= i && i < 32767 && old(dl.segments[i]) == nil && dl.segments[i] != nil ==> dl.segments[i] == dl.curSeg && fresh(dl.curSeg) && fresh(dl.curSeg.file) && fresh(dl.curSeg.meta) && dl.curSeg.file.size == 512
 //@   ensures files: forall h ref :: old(hOpen[h]) ==> hOpen[h] && fidOf[h] == old(fidOf[h]) && fLen[fidOf[h]] == old(fLen[fidOf[h]]) && fDur[fidOf[h]] == old(fDur[fidOf[h]]) && fData[fidOf[h]] == old(fData[fidOf[h]])
+//@   ensures positions: forall h ref :: old(hOpen[h]) ==> hPos[h] == old(hPos[h])
 //@   ensures dir: forall n string :: old(dirFid[dl.opts.FileSystem][n]) != 0 ==> dirFid[dl.opts.FileSystem][n] == old(dirFid[dl.opts.FileSystem][n])
 //@   ensures created: (forall i int :: 0 <= i && i < 32767 && old(dl.segments[i]) != nil ==> old(dl.segments[i].meta.Full)) && err == nil ==> fresh(dl.curSeg) && fresh(dl.curSeg.file) && fresh(dl.curSeg.meta) && dl.curSeg.file.size == 512
 //@   ensures newfid: (forall i int :: 0 <= i && i < 32767 && old(dl.segments[i]) != nil ==> old(dl.segments[i].meta.Full)) && err == nil ==> forall h ref :: old(hOpen[h]) ==> h != ref(dl.curSeg.file.File) && fidOf[h] != fidOf[dl.curSeg.file.File]
-//@   ensures err: err != nil ==> !isNotExist(err)
+//@   ensures err: err != nil ==> !isNotExist(err) && err != ErrIterationDone
 //@   modifies dl.curSeg, dl.segments, dl.maxSequenceID, dirFid[dl.opts.FileSystem], fLen, fDur, fData, hOpen, hPos, fidOf, fidName
 
 //@ func (dl *datalog) writeRecord(data []byte, rt recordType) (segID uint16, off uint32, err error) [C03,C05,C06,C16]
@@ -34,6 +35,12 @@ package pogreb
 //@   ensures [C03] appendonly: err == nil ==> forall h ref :: old(hOpen[h]) ==> hOpen[h] && fidOf[h] == old(fidOf[h]) && fLen[fidOf[h]] >= old(fLen[fidOf[h]]) && (fidOf[h] != fidOf[dl.curSeg.file.File] ==> fLen[fidOf[h]] == old(fLen[fidOf[h]]) && fData[fidOf[h]] == old(fData[fidOf[h]]) && (fDur[fidOf[h]] == old(fDur[fidOf[h]]) || fDur[fidOf[h]] == fLen[fidOf[h]]))
 //@   ensures [C03] prefix: err == nil ==> forall h ref, q int :: h == dl.curSeg.file.File && old(hOpen[h]) && 0 <= q && q < int(off) ==> fData[fidOf[h]][q] == old(fData[fidOf[h]])[q]
 //@   ensures newfid: err == nil ==> (dl.curSeg == old(dl.curSeg) && old(dl.segments[dl.curSeg.id] == dl.curSeg)) || fresh(dl.curSeg.file) && forall h ref :: old(hOpen[h]) ==> h != ref(dl.curSeg.file.File) && fidOf[h] != fidOf[dl.curSeg.file.File]
+//@   ensures errs: err != ErrIterationDone
+//@   ensures positions: forall h ref :: old(hOpen[h]) ==> hPos[h] == old(hPos[h])
+//@   ensures fullmono: forall m *segmentMeta :: old(m.Full) ==> m.Full
+//@   ensures cursel: err == nil ==> (dl.curSeg == old(dl.curSeg) && !old(dl.curSeg.meta.Full)) || (fresh(dl.curSeg) && fresh(dl.curSeg.file))
+// sealed segments are never written
+//@   ensures [C03] sealed-untouched: err == nil ==> forall i int :: 0 <= i && i < 32767 && old(dl.segments[i]) != nil && old(dl.segments[i].meta.Full) ==> dl.segments[i].file.size == old(dl.segments[i].file.size) && fLen[fidOf[dl.segments[i].file.File]] == old(fLen[fidOf[dl.segments[i].file.File]]) && fData[fidOf[dl.segments[i].file.File]] == old(fData[fidOf[dl.segments[i].file.File]])
 //@   ensures sizes: forall f *file :: f != dl.curSeg.file && !fresh(f) ==> f.size == old(f.size) && f.File == old(f.File)
 //@   flag lossless
 //@   modifies dl.curSeg, dl.segments, dl.maxSequenceID, any(segmentMeta).Full, any(segmentMeta).PutRecords, any(segmentMeta).DeleteRecords, any(file).size, dirFid[dl.opts.FileSystem], fLen, fDur, fData, hOpen, hPos, fidOf, fidName
